@@ -288,9 +288,25 @@ def _mod_ctypes(it, m):
     for name, bits, signed in (('c_int64', 64, True), ('c_int32', 32, True), ('c_uint64', 64, False),
                                ('c_uint32', 32, False), ('c_int16', 16, True), ('c_uint16', 16, False),
                                ('c_int8', 8, True), ('c_uint8', 8, False), ('c_int', 32, True), ('c_uint', 32, False),
-                               ('c_long', 64, True), ('c_ulong', 64, False), ('c_longlong', 64, True),
+                               ('c_longlong', 64, True),
                                ('c_ulonglong', 64, False), ('c_short', 16, True), ('c_ushort', 16, False)):
         m.ns[name] = mk(name, bits, signed)
+
+    def mk_long(name, signed):
+        # C long: 64 bits on LP64 hosts, 32 on LLP64 ones - a host symbol
+        w64, w32 = mk(name, 64, signed), mk(name, 32, signed)
+
+        @_builtin(name)
+        def ctor(it, args, kw, n):
+            a, b = w64.impl(it, args, kw, n), w32.impl(it, args, kw, n)
+            va, vb = a.fields['value'], b.fields['value']
+            if isinstance(va, int) and isinstance(vb, int) and va == vb:
+                return a
+            a.fields['value'] = mk_int(z3.If(z3.Bool(HOST_PREFIX + 'ctypes.long_is_64_bits'), zi(va), zi(vb)))
+            return a
+        return ctor
+    m.ns['c_long'] = mk_long('c_long', True)
+    m.ns['c_ulong'] = mk_long('c_ulong', False)
 
 
 # ------------------------------------------------------------------------------ host modules
@@ -495,6 +511,26 @@ def _mod_pygments(it, m):
 
 def _mod_termcolor(it, m):
     m.ns['$opaque'] = True
+
+
+def _mod_sys(it, m):
+    # what the interpreter reports about the machine it runs on: host symbols (C18)
+    m.ns['$opaque'] = True
+    for nm in ('byteorder', 'platform', 'maxsize'):
+        m.ns[nm] = atom_str(z3.Int(HOST_PREFIX + 'sys.' + nm)) if nm != 'maxsize' else SInt(z3.Int(HOST_PREFIX + 'sys.maxsize'))
+
+
+def _mod_os(it, m):
+    m.ns['$opaque'] = True
+    for nm in ('name', 'sep', 'linesep'):
+        m.ns[nm] = atom_str(z3.Int(HOST_PREFIX + 'os.' + nm))
+
+
+def _mod_platform(it, m):
+    def host_fn(nm):
+        return Builtin('platform.' + nm, lambda it_, a, kw, n: atom_str(z3.Int(HOST_PREFIX + 'platform.' + nm)))
+    for nm in ('system', 'machine', 'release', 'platform', 'processor'):
+        m.ns[nm] = host_fn(nm)
 
 
 # ------------------------------------------------------------------------------ symbolic helpers
